@@ -414,6 +414,7 @@ type candidate struct {
 	tape []uint64 // nil when the worker died in generate mode
 	res  *sim.Result
 	n    int
+	alts []*candidate // further runs that showed the same (oracle, key): tried when this one does not reproduce
 }
 
 func cmdCheck(args []string) int {
@@ -496,9 +497,20 @@ func cmdCheck(args []string) int {
 				}
 				cands[k] = c
 				candOrder = append(candOrder, k)
-			} else if o.res != nil && (c.tape == nil || len(o.res.Tape) < len(c.tape)) {
-				// keep the smallest witness tape as the shrink start
-				c.v, c.run, c.race, c.res, c.tape = v, o.run, o.race, o.res, o.res.Tape
+			} else {
+				alt := &candidate{v: v, run: o.run, race: o.race, res: o.res}
+				if o.res != nil {
+					alt.tape = o.res.Tape
+				}
+				if o.res != nil && (c.tape == nil || len(o.res.Tape) < len(c.tape)) {
+					// keep the smallest witness tape as the shrink start, the previous one as an alternative
+					prev := &candidate{v: c.v, run: c.run, race: c.race, res: c.res, tape: c.tape}
+					c.v, c.run, c.race, c.res, c.tape = v, o.run, o.race, o.res, o.res.Tape
+					alt = prev
+				}
+				if len(c.alts) < 8 {
+					c.alts = append(c.alts, alt)
+				}
 			}
 			c.n++
 		}
@@ -538,6 +550,18 @@ func cmdCheck(args []string) int {
 			continue
 		}
 		path, rep, cerr := r.confirmAndMinimise(c, *tier)
+		// a run can fail because of what an EARLIER run left behind in its worker process (e.g. a
+		// real sync.Pool the simulator does not own); such a run does not reproduce alone. Other
+		// runs that showed the same finding are tried before giving up.
+		for i := 0; cerr != nil && i < len(c.alts); i++ {
+			fmt.Printf("simdriver: run %d did not reproduce %s/%s alone (%v); trying run %d\n", c.run, c.v.Oracle, c.v.Key, cerr, c.alts[i].run)
+			a := c.alts[i]
+			a.n = c.n
+			path, rep, cerr = r.confirmAndMinimise(a, *tier)
+			if cerr == nil {
+				c.run = a.run
+			}
+		}
 		if cerr != nil {
 			fatal2("finding oracle=%s key=%s (run %d) did not reproduce from its tape in a fresh process: %v\n%s", c.v.Oracle, c.v.Key, c.run, cerr, c.v.Detail)
 		}
